@@ -263,7 +263,7 @@ Qed.
 (** ** from a node to the branch above it *)
 Lemma edge_of_node : forall c, is_leaf c = false -> node_ok c -> edge_ok c.
 Proof.
-  intros c Hl [Hv [LB UB]]. unfold miss in *. split; [exact Hv|]. split.
+  intros c Hl [Hv [LB UB]]. unfold edge_ok, miss in *. split; [exact Hv|]. split.
   - intros x lc Hs. unfold branch_cost. rewrite Hl.
     specialize (LB lc Hs). destruct Hv as [_ [H01 _]].
     pose proof (H01 x). pose proof (H01 (lroot lc)).
